@@ -1,0 +1,45 @@
+//! Verification hooks. Compiled only with `--cfg selium_verif`; absent from normal builds.
+//!
+//! * an endpoint factory, so a simulator can substitute the UDP socket and timer source that the
+//!   client's QUIC endpoint runs on;
+//! * `Client::verif_close_connection`, a fault-injection method that closes the client's current
+//!   QUIC connection;
+//! * `now()`, which reads the tokio clock so batching intervals follow a paused/virtual clock.
+
+use crate::Client;
+use quinn::Endpoint;
+use std::cell::RefCell;
+use std::io;
+use std::net::SocketAddr;
+use std::time::Instant;
+
+pub type EndpointFactory = Box<dyn Fn(SocketAddr) -> io::Result<Endpoint>>;
+
+thread_local! {
+    static FACTORY: RefCell<Option<EndpointFactory>> = RefCell::new(None);
+}
+
+/// Installs (or removes) the endpoint factory for the current thread.
+pub fn set_endpoint_factory(factory: Option<EndpointFactory>) {
+    FACTORY.with(|f| *f.borrow_mut() = factory);
+}
+
+pub(crate) fn client_endpoint(addr: SocketAddr) -> io::Result<Endpoint> {
+    FACTORY.with(|f| match &*f.borrow() {
+        Some(factory) => factory(addr),
+        None => Endpoint::client(addr),
+    })
+}
+
+/// The tokio clock as a `std::time::Instant`.
+pub fn now() -> Instant {
+    tokio::time::Instant::now().into_std()
+}
+
+impl Client {
+    /// Fault injection: closes the client's current QUIC connection.
+    pub async fn verif_close_connection(&self) {
+        let connection = self.connection.lock().await;
+        connection.conn().close(0u32.into(), b"verif: injected close");
+    }
+}
